@@ -107,9 +107,13 @@ Exit ==
   /\ UNCHANGED <<handlers, userL, userP>>
 
 \* an exception raised in the innermost body and caught k levels up
-Raise(k) ==
+\* kind: what is raised.  "Exception" subclasses (an error in the user's likelihood) and the
+\* BaseException-only kinds (KeyboardInterrupt when the user presses ctrl-C, SystemExit, and
+\* GeneratorExit when a generator-based manager is closed) all unwind a with-block the same way.
+ExcKinds == {"RuntimeError", "KeyboardInterrupt", "SystemExit"}
+Raise(k, kind) ==
   /\ nops < MaxOps /\ k \in 1..Len(stack)
-  /\ nops' = nops + 1 /\ op' = <<"Raise", k>>
+  /\ nops' = nops + 1 /\ op' = <<"Raise", k, kind>>
   /\ LET r == Unwind(k, stack, L, P, defaults, closed, joined) IN
      /\ stack' = r.st /\ L' = r.L /\ P' = r.P /\ defaults' = r.d /\ closed' = r.cl /\ joined' = r.jn
      /\ lastPop' = [valid |-> TRUE, ok |-> r.ok, closeOk |-> r.closeOk]
@@ -121,7 +125,7 @@ Next ==
   \/ SetL \/ SetP
   \/ \E o \in AutoOpts : EnterAuto(o[1], o[2], o[3])
   \/ Exit
-  \/ \E k \in 1..MaxDepth : Raise(k)
+  \/ \E k \in 1..MaxDepth, kind \in ExcKinds : Raise(k, kind)
 
 Spec == Init /\ [][Next]_vars
 
